@@ -212,6 +212,7 @@ class Client(object):
     def call(self, fn):
         """run client code; exceptions are recorded (they would kill the thread that delivered the stanza)"""
         sink = io.StringIO()
+        _GUARD["n"] = 0
         try:
             with contextlib.redirect_stdout(sink):
                 r = fn()
@@ -280,6 +281,29 @@ class Conn(object):
         self.pending_connect = True
 
 
+class EndlessHandling(Exception):
+    """one stanza delivered to a client made its receive layer handle encrypted stanzas more than 400 times: the real client would never
+    come back from that delivery (stopped by the harness so that the check can report it)"""
+
+
+_GUARD = {"n": 0}
+
+
+def _install_guard():
+    from yowsup.layers.axolotl import AxolotlReceivelayer
+    if getattr(AxolotlReceivelayer.handleEncMessage, "_verif_guard", False):
+        return
+    orig = AxolotlReceivelayer.handleEncMessage
+
+    def guarded(self, node):
+        _GUARD["n"] += 1
+        if _GUARD["n"] > 400:
+            raise EndlessHandling("stanza %s from %s handled again and again inside one delivery" % (node["id"], node["from"]))
+        return orig(self, node)
+    guarded._verif_guard = True
+    AxolotlReceivelayer.handleEncMessage = guarded
+
+
 class Server(object):
     """the common server.  Queues: per connection `inbound` (FIFO); per account `outbound` (FIFO, survives
     connections = offline storage).  `enabled()` lists what the scheduler may do next; `fire(action)` does it."""
@@ -308,6 +332,7 @@ class Server(object):
         SimDispatcher.server = self
 
     def install(self):
+        _install_guard()
         import yowsup.axolotl.manager as mgr
         import yowsup.layers.network.layer as nl
         nl.AsyncoreConnectionDispatcher = SimDispatcher
@@ -385,9 +410,9 @@ class Server(object):
                 self._to_client(conn, clone(node))          # delivered now, and once more later
                 return
             self.outbound[jid].popleft()
-            if fault == "corrupt" and node.tag == "message":
-                self.fault_log.append(("corrupt", node["id"], jid))
-                node = self.corrupted(node)
+            if fault in ("corrupt", "corrupt-first") and node.tag == "message":
+                self.fault_log.append((fault, node["id"], jid))
+                node = self.corrupted(node, first=(fault == "corrupt-first"))
             self._to_client(conn, node)
 
     def run(self, choose=None, limit=10000):
@@ -519,12 +544,13 @@ class Server(object):
             self.fault_log.append(("dup", mid, target))
             self.push(target, clone(node), mid=mid)
 
-    def corrupted(self, node):
-        """the same stanza with one byte of its last ciphertext flipped (inside the authenticated part)"""
+    def corrupted(self, node, first=False):
+        """the same stanza with one byte of its last ciphertext flipped (inside the authenticated part); `first`: of its FIRST ciphertext — in a
+        sender's first group message to a member that is the pairwise part carrying the sender key, the group part behind it stays intact"""
         bad = clone(node)
         encs = bad.getAllChildren("enc")
         if encs:
-            e = encs[-1]
+            e = encs[0] if first else encs[-1]
             data = bytearray(e.getData())
             pos = len(data) - 12 if len(data) > 24 else len(data) // 2
             data[pos] ^= 0x5A
